@@ -343,7 +343,25 @@ func (vc *FuncVC) translateAxioms() {
 		}
 		ds := &State{heaps: map[string]Term{}, alloc: dummy.alloc, fr: dummy.fr}
 		env := &Env{vc: vc, st: ds, vars: map[string]TV{}, pkg: pkg}
-		t := env.asBool(env.tr(ad.E))
+		var t Term
+		skipped := false
+		func() {
+			defer func() {
+				if r := recover(); r != nil {
+					if te, ok := r.(trError); ok && vc.bv {
+						// an integer axiom that has no bit-vector reading: not available to this (bv mode) function
+						_ = te
+						skipped = true
+						return
+					}
+					panic(r)
+				}
+			}()
+			t = env.asBool(env.tr(ad.E))
+		}()
+		if skipped {
+			continue
+		}
 		text := t.S
 		// an axiom that reads heaps holds in every state: close it universally over the heaps it mentions
 		if len(ds.heaps) > 0 {
